@@ -50,6 +50,18 @@ LIST_FORMS = [
     ('repeat with i from 1 to 5 begin if {i == 2} break end print i', [2]),
     ('repeat all as l with h from 0 to 4 print 0 print h', [0, 0, 0, 0, 0, 4.0]),
     ('repeat 4 with h cycle print 0 print h', [0, 0, 0, 0, 270.0]),
+    # bounds and cycle starts written as a minus sign in front of a constant
+    ('define lo 2 repeat with i from -lo to lo print i', [-2, -1, 0, 1, 2]),
+    ('define lim 4 repeat 3 with v from lim to -lim print v', [4, 0.0, -4.0]),
+    ('define start 90 repeat 2 with h cycle -start print h', [-90, 90.0]),
+    ('define n 2 repeat with i from 0 to -n print i', [0, -1, -2]),
+    # a routine defined inside a loop body or a conditional in it leaves the loop around it as written
+    ('repeat with i from 1 to 3 begin define g with y begin print y end g i end print "done"', [1, 2, 3, 'done']),
+    ('repeat with i from 1 to 2 begin repeat with j from 1 to 2 begin if {j == 2} begin define h with y begin print y end break end h {i * 10 + j} end print i end print "done"',
+     [11, 1, 21, 2, 'done']),
+    ('repeat 2 begin define k begin print 5 end k end print 6', [5, 5, 6]),
+    ('assign n 0 repeat while {n < 2} begin define w begin print n end assign n {n + 1} w end print 9', [1, 2, 9]),
+    ('repeat all as l begin define s with x begin print x end s l end', ['A', 'B', 'C', 'M', 'Z']),
 ]
 
 
